@@ -17,6 +17,15 @@ def over_budget():
 STATS = {"z3py": 0, "z3py_fresh": 0, "cvc5": 0, "z3-4.8": 0, "solver_s": 0.0, "cross_checked": 0,
          "cross_disagree": 0}
 CROSS = []      # (name, {backend: verdict}) in the thorough tier
+CROSS_SEEN = set()
+
+
+def cross_once(name):
+    """thorough tier: every distinct obligation (by name) is re-checked on the other back ends once per job"""
+    if name in CROSS_SEEN:
+        return False
+    CROSS_SEEN.add(name)
+    return True
 
 
 def _v(r):
@@ -100,7 +109,7 @@ def discharge(I, name, goal, kind="vc", detail=""):
         STATS["abstract"] = STATS.get("abstract", 0) + 1
         ob = Obligation(name, "unsat", "z3-5.1(py,UF-abstracted arithmetic)", int(dt * 1000), path=list(I.dec),
                         detail=detail, kind=kind)
-        if THOROUGH and kind != "cover":
+        if THOROUGH and kind != "cover" and cross_once(name):
             s = I.solver
             smt2 = smt2_of(list(s.assertions()), neg)
             v1, _ = cvc5_cli(smt2, 30)
@@ -149,7 +158,7 @@ def discharge(I, name, goal, kind="vc", detail=""):
             STATS["z3-4.8"] += 1
             backend = "z3-4.8.12(cli)"
             verdict = v
-    if THOROUGH and verdict in ("sat", "unsat") and kind != "cover":
+    if THOROUGH and verdict in ("sat", "unsat") and kind not in ("cover", "control") and cross_once(name):
         smt2 = smt2 or smt2_of(assertions[:-1], neg)
         others = {}
         v1, _ = cvc5_cli(smt2, 30)
